@@ -243,6 +243,43 @@ func main() {
 			}
 		}
 		hrec(0)
+		// line continuation: backslash-newline between two pieces of text glues them together,
+		// whatever stands on either side (word, closed quote, blank)
+		pieces := []string{"a", "E=", "\"q r\"", "a ", " a", ""}
+		for _, l := range pieces {
+			for _, r := range pieces {
+				res.Cases++
+				res.Nontriv++
+				in := l + "\\\n" + r + "\n"
+				var want []string
+				// reference: remove the continuation, then split on unquoted blanks
+				flat := l + r
+				cur, open, inq := "", false, false
+				for i := 0; i < len(flat); i++ {
+					c := flat[i]
+					switch {
+					case c == '"':
+						inq = !inq
+						open = true
+					case (c == ' ' || c == '\t') && !inq:
+						if open {
+							want = append(want, cur)
+						}
+						cur, open = "", false
+					default:
+						cur += string(c)
+						open = true
+					}
+				}
+				if open {
+					want = append(want, cur)
+				}
+				got, eof, err := varutil.ReadArguments(strings.NewReader(in))
+				if err != nil || eof || fmt.Sprintf("%q", got) != fmt.Sprintf("%q", want) {
+					add(&failure{"continuation-glues", fmt.Sprintf("%q", in), fmt.Sprintf("want %q, got %q eof=%v err=%v", want, got, eof, err)})
+				}
+			}
+		}
 	}
 	res.WallS = time.Since(start).Seconds()
 	b, _ := json.MarshalIndent(res, "", " ")
